@@ -17,7 +17,7 @@ variable {G D O O' : Type}
   cases w; cases w'; simp_all
 
 theorem setOwn_self (w : World G) (a : Nat) : setOwn w a (w.own a) = w := by
-  apply World.ext' rfl
+  refine World.ext' (by rfl) ?_
   funext b
   unfold setOwn
   by_cases h : b = a
@@ -25,7 +25,7 @@ theorem setOwn_self (w : World G) (a : Nat) : setOwn w a (w.own a) = w := by
   Â· simp [h]
 
 theorem setOwn_setOwn (w : World G) (a : Nat) (g g' : G) : setOwn (setOwn w a g) a g' = setOwn w a g' := by
-  apply World.ext' rfl
+  refine World.ext' (by rfl) ?_
   funext b
   unfold setOwn
   by_cases h : b = a <;> simp [h]
@@ -112,7 +112,7 @@ theorem allOwn_bind {p : Prog D O} {f : O â†’ Prog D O'} (hp : AllOwn p) (hf : â
   | draw k _ ih => exact AllOwn.draw _ ih
 
 theorem allOwn_map {p : Prog D O} (f : O â†’ O') (hp : AllOwn p) : AllOwn (p.map f) :=
-  allOwn_bind hp fun o => AllOwn.ret _
+  allOwn_bind hp fun _ => AllOwn.ret _
 
 theorem allOwn_drawN : âˆ€ n : Nat, AllOwn (drawN (D := D) .own n)
   | 0 => AllOwn.ret _
